@@ -22,8 +22,8 @@ func init() {
 		Rule:        "rounds of 2-3 RepeatableRead/Serializable transactions that all begin, write intersecting (and some disjoint) key sets, optionally race with one autocommit writer, and then call Commit concurrently from their own goroutines, on the real inline database with seeded perturbation at the hook points; intervals are recorded at the client boundary. Oracle (interval based, sound): two successful commits with intersecting write sets whose transactions were both begun before either Commit was called = lost update; a successful commit although an autocommit write to one of its keys lies entirely between its Begin and its Commit; a failed commit with no other write to its keys in its lifetime; all conflicting commits failing; final values must be those of a successful committer; values of failed transactions never readable. Plus the window {A.checked, A.published, B.checked, B.published} steered through hook gates. evaluations = commit calls judged; distinct_nontrivial = rounds in which the Commit intervals of conflicting transactions truly overlapped + distinct (window order, outcome) pairs",
 		Assumptions: []string{"monotonic clock of one process", "hook gates only delay goroutines (bounded waits)"},
 		Roles: map[string]Role{
-			"rounds": {N: func(t string) int { return tierN(t, 16, 400) }, Case: c07Rounds},
-			"window": {N: func(t string) int { return tierN(t, 24, 600) }, Case: c07Window},
+			"rounds": {N: func(t string) int { return tierN(t, 16, 1600) }, Case: c07Rounds},
+			"window": {N: func(t string) int { return tierN(t, 24, 2400) }, Case: c07Window},
 		},
 	})
 }
